@@ -301,3 +301,141 @@ Definition pull_onoff (ms : list member) (fail_at : Z) (strategy : Z) (evs : lis
   pull onoff_reduce_p Z.eqb ms fail_at strategy evs.
 Definition pull_light (ms : list member) (fail_at : Z) (strategy : Z) (evs : list (pevent Q)) : pstate Q :=
   pull light_reduce_p Qeq_bool ms fail_at strategy evs.
+
+(* ================= Part C: Pull with ExecutionStrategyOne ================= *)
+(* Execute(ctx, One, actions) = ExecuteOne: the members' pull actions run one after the other on
+   Execute's goroutine.  Member [o_cur] is the only one whose stream is open; the next one is opened
+   when it returns (every member returns an error, so ExecuteOne goes through all of them and returns
+   member 0's error).  Execute does not cancel anything itself: the context is cancelled by the server
+   context, by Pull's cancelFunc after a failed Send, or by the deferred cancelFunc when Pull returns.
+   Under a cancelled context a cancellation-aware member returns at once (chain of immediate returns
+   at the same step); a context-ignoring one stays in its stream until its next event. *)
+Record ostate (V : Type) := mkOS {
+  o_cur : nat;                   (* the running member; = number of members: ExecuteOne has returned *)
+  o_cancel : option nat;
+  o_first : Z;                   (* firstErr of ExecuteOne *)
+  o_saw : list Z;
+  o_changes : list (option V);
+  o_last : option V;
+  o_sent : list (psent V);
+  o_nsend : Z;
+  o_failed : option Z;
+  o_ret : option (nat * Z);
+  o_nondet : bool
+}.
+Arguments mkOS {V}. Arguments o_cur {V}. Arguments o_cancel {V}. Arguments o_first {V}. Arguments o_saw {V}.
+Arguments o_changes {V}. Arguments o_last {V}. Arguments o_sent {V}. Arguments o_nsend {V}.
+Arguments o_failed {V}. Arguments o_ret {V}. Arguments o_nondet {V}.
+
+(* under a cancelled context: the aware members from [cur] on return one after the other at step s *)
+Fixpoint chain (s : nat) (rest : list member) (cur : nat) (saw : list Z) (first : Z) : nat * list Z * Z :=
+  match rest with
+  | [] => (cur, saw, first)
+  | m :: t =>
+      if m_aware m
+      then chain s t (S cur) (set_nth cur (Z.of_nat s) saw) (if Nat.eqb cur 0 then cancel_err 0 else first)
+      else (cur, saw, first)
+  end.
+
+Section PullOne.
+Context {V : Type}.
+Variable reduce : list (option V) -> option V.
+Variable veqb : V -> V -> bool.
+Variable ms : list member.
+Variable fail_at : Z.
+
+Definition o_with (st : ostate V) (cur : nat) (cancel : option nat) (first : Z) (saw : list Z) : ostate V :=
+  mkOS cur cancel first saw (o_changes st) (o_last st) (o_sent st) (o_nsend st) (o_failed st) (o_ret st) (o_nondet st).
+Definition o_nd (st : ostate V) : ostate V :=
+  mkOS (o_cur st) (o_cancel st) (o_first st) (o_saw st) (o_changes st) (o_last st) (o_sent st) (o_nsend st)
+       (o_failed st) (o_ret st) true.
+
+(* the context is (now) cancelled at step s: the running member and its successors, while aware, return *)
+Definition o_chain (s : nat) (st : ostate V) : ostate V :=
+  match o_cancel st with
+  | None => st
+  | Some _ =>
+      let '(cur, saw, first) := chain s (skipn (o_cur st) ms) (o_cur st) (o_saw st) (o_first st) in
+      o_with st cur (o_cancel st) first saw
+  end.
+Definition o_set_cancel (s : nat) (st : ostate V) : ostate V :=
+  match o_cancel st with
+  | None => o_with st (o_cur st) (Some s) (o_first st) (o_saw st)
+  | Some _ => st
+  end.
+(* the running member returns err *)
+Definition o_member_returns (s : nat) (st : ostate V) (err : Z) : ostate V :=
+  o_chain s (o_with st (S (o_cur st)) (o_cancel st) (if Nat.eqb (o_cur st) 0 then err else o_first st) (o_saw st)).
+
+Definition o_check_ret (s : nat) (st : ostate V) : ostate V :=
+  match o_ret st with
+  | Some _ => st
+  | None =>
+      if Nat.eqb (o_cur st) (List.length ms) then
+        mkOS (o_cur st) (match o_cancel st with None => Some s | x => x end) (o_first st) (o_saw st) (o_changes st)
+             (o_last st) (o_sent st) (o_nsend st) (o_failed st)
+             (Some (s, match o_failed st with Some e => e | None => o_first st end)) (o_nondet st)
+      else st
+  end.
+
+Definition o_recv (s : nat) (st : ostate V) (i : nat) (chs : list (V * Z)) : ostate V :=
+  match rev chs with
+  | [] => st
+  | (v, t) :: _ =>
+      let changes := set_nth i (Some v) (o_changes st) in
+      let new := reduce changes in
+      if option_eqb veqb (o_last st) new
+      then mkOS (o_cur st) (o_cancel st) (o_first st) (o_saw st) changes (o_last st) (o_sent st) (o_nsend st)
+                (o_failed st) (o_ret st) (o_nondet st)
+      else
+        match new with
+        | None => mkOS (o_cur st) (o_cancel st) (o_first st) (o_saw st) changes new (o_sent st) (o_nsend st)
+                       (o_failed st) (o_ret st) (o_nondet st)
+        | Some nv =>
+            let k := o_nsend st + 1 in
+            let sent := o_sent st ++ [mkSent (Z.of_nat s) nv t 0] in
+            if k =? fail_at
+            then o_chain s (o_set_cancel s
+                   (mkOS (o_cur st) (o_cancel st) (o_first st) (o_saw st) changes new sent k (Some (send_err k))
+                         (o_ret st) (o_nondet st)))
+            else mkOS (o_cur st) (o_cancel st) (o_first st) (o_saw st) changes new sent k (o_failed st)
+                      (o_ret st) (o_nondet st)
+        end
+  end.
+
+Definition ostep (s : nat) (st : ostate V) (ev : pevent V) : ostate V :=
+  o_check_ret s
+    (match ev with
+     | EMsg i chs =>
+         if Nat.eqb i (o_cur st) && (i <? List.length ms)%nat then
+           match o_failed st, o_cancel st with
+           | None, None => o_recv s st i chs
+           | None, Some _ => o_nd st                      (* both arms of the member's select are ready *)
+           | Some _, _ => o_member_returns s st bare_cancel_err   (* nobody receives: ctx.Done arm *)
+           end
+         else o_nd st
+     | EEnd i =>
+         if Nat.eqb i (o_cur st) && (i <? List.length ms)%nat
+         then o_member_returns s st (err_of i Fail) else o_nd st
+     | EParent => o_chain s (o_set_cancel s st)
+     end).
+
+Fixpoint orun (s : nat) (st : ostate V) (evs : list (pevent V)) : ostate V :=
+  match evs with
+  | [] => st
+  | e :: t => orun (S s) (ostep s st e) t
+  end.
+
+Definition oinit : ostate V :=
+  let n := List.length ms in
+  o_check_ret 0 (mkOS 0 None 0 (repeat (-1) n) (repeat None n) None [] 0 None None false).
+
+Definition pull_one (evs : list (pevent V)) : ostate V := orun 1 oinit evs.
+End PullOne.
+
+Definition pobs_of_one {V} (ms : list member) (eofs : list bool) (st : ostate V) : pobs V :=
+  mkPO (map (fun m => (s_step m, s_val m, s_time m)) (o_sent st))
+       (match o_ret st with Some (s, _) => Z.of_nat s | None => -1 end)
+       (match o_ret st with Some (_, e) => perr eofs e | None => 0 end)
+       (match ms with [] => -1 | _ => optZ (o_cancel st) end)
+       (o_saw st) 0 true.
